@@ -1,12 +1,13 @@
 import EupsModel.Drv.Util
 import EupsModel.Model.Cache
+import EupsModel.Model.DbFile
 /-! Driver handler of the database family (C06, C15, C07): run a history of commands on `Cache.World`.
 
 Request `{"m":"c06","nst":2,"dirs":[[root,rel,tname]..],"pinned":false,"cmds":[cmd..]}` with
 `cmd = {"op":"declare"|"undeclare"|"assignTag"|"unassignTag"|"query"|"rmcache", "user":0, "self":"Linux", ...}`;
 answer `{"steps":[{"out","crashed","flavs","view","trace","db","caches"}..]}` — the state after every command. -/
 namespace EupsModel.Drv.C06
-open Lean EupsModel EupsModel.Drv EupsModel.Db EupsModel.Cache
+open Lean EupsModel EupsModel.Drv EupsModel.Db EupsModel.Cache EupsModel.DbFile
 
 def jnatOpt (j : Json) (k : String) : Except String (Option Nat) :=
   match j.getObjVal? k with
@@ -130,23 +131,34 @@ def ofCache (c : CacheFile) : Json :=
               ("mtime", Json.num c.mtime), ("c", ofSpec c.c)]
 def ofTouch (t : Touch) : Json := Json.arr #[Json.num t.stack, ofStr t.name, Json.num t.mtime]
 
+def ofFileDb (F : FileDb) : Json :=
+  Json.mkObj
+    [("vfiles", Json.arr (F.vfiles.map fun x =>
+        Json.arr #[Json.num x.key.1, ofStr x.key.2.1, ofStr x.key.2.2, ofStrs (x.recs.map (·.flav))]).toArray),
+     ("cfiles", Json.arr (F.cfiles.map fun x =>
+        Json.arr #[Json.num x.key.1, ofStr x.key.2.1, ofStr x.key.2.2, ofStrs (x.recs.map (·.flav))]).toArray),
+     ("abs", ofSpec (DbFile.abs F))]
+
 def handle : Handler := fun j => do
   let nst ← jnat j "nst"
   let dirs ← (← jarr j "dirs").mapM dirEntOfJson
   let pinned ← jboolD j "pinned"
   let mut w := World.init nst dirs
+  let mut F := FileDb.empty
   let mut steps : Array Json := #[]
   for cj in (← jarr j "cmds") do
     let c ← cmdOfJson cj
     let r := stepG (!pinned) w c
     w := r.w
+    F := r.trace.foldl (fun F e => applyF e F) F
     steps := steps.push <| Json.mkObj
       [("out", ofOutcome r.out), ("crashed", Json.bool r.crashed),
        ("flavs", Json.arr (r.flavs.map ofStrs).toArray), ("view", ofSpec r.view),
        ("trace", Json.arr (r.trace.map ofEff).toArray), ("db", ofSpec w.db),
        ("caches", Json.arr (w.caches.map ofCache).toArray),
        ("touch", Json.arr (w.touch.map ofTouch).toArray),
-       ("dirs", Json.arr (w.dirs.map fun d => ofDir d.dir).toArray)]
+       ("dirs", Json.arr (w.dirs.map fun d => ofDir d.dir).toArray),
+       ("files", ofFileDb F)]
   pure (Json.mkObj [("steps", Json.arr steps)])
 
 end EupsModel.Drv.C06
